@@ -136,6 +136,20 @@ def erase_idx(v):
     return rewrite(v, f)
 
 
+def _symbols_of(v):
+    out = set()
+
+    def f(kind, name, args):
+        if kind == "s":
+            out.add(name)
+        return NotImplemented
+    try:
+        rewrite(v, f)
+    except Unsupported:
+        out.add("<a term the algebra cannot walk>")
+    return out
+
+
 def atoms_of(v, name):
     """argument lists of all opaque applications `name` occurring (at any depth) in the value"""
     out = []
@@ -577,7 +591,11 @@ def _imported_from(ctx, mod, name):
 
 
 class Opts:
-    def __init__(self, classes=(), exclude=(), erase_loop_index=False, models=None, max_depth=8, elem_hook=None, load_hook=None, erase_T=True):
+    def __init__(self, classes=(), exclude=(), erase_loop_index=False, models=None, max_depth=8, elem_hook=None, load_hook=None, erase_T=True, vectors=False):
+        # vectors: a local bound to a vector held entry by entry (a finite symbolic grid) stays a value; a store into it updates the entries
+        # (`w[[0, -1]] /= 2`, `w[:-1] += s`).  Whatever could write the vector in a way that is not followed makes it Unknown.
+        self.vectors = vectors
+        self.vector_readers = set()          # last name components of callees that only read the arrays they are handed (the solvers' fsolve)
         self.classes = list(classes)        # [(file, class name)] in method resolution order
         self.exclude = set(exclude)         # call names that stay opaque
         self.erase_loop_index = erase_loop_index
@@ -688,6 +706,12 @@ class PathEval(AutoEvaluator):
         self.stack = tuple(stack) + (fn,)
         self.alias = {}
         self.views = {}       # local name -> value, for a name that is stored through but bound to a field of another object (`resp = sol.a`)
+        self.vecnames = set() # (opts.vectors) buffers that hold a vector entry by entry: env[name] is the tuple of their entries
+        self.vecviews = {}    # (opts.vectors) name -> vector name it may be a view of (bound to the vector or to a slice of it)
+        self.vecdead = {}     # (opts.vectors) name -> Unknown: a vector that was written in a way that is not followed, until the name is rebound
+        if opts.vectors and depth == 0:
+            self.vecnames.update(k for k, v in self.env.items() if isinstance(v, tuple) and not isinstance(v, Record) and v
+                                 and not any(x is None or is_unknown(x) or isinstance(x, (tuple, DictValue)) for x in v))
         self.erase_T = opts.erase_T
         self.binop_hook = self._binop
         self._cont = False
@@ -903,7 +927,162 @@ class PathEval(AutoEvaluator):
         return F.fn("tuple", *[v if v is not None else F.sym(":") for v in axes])
 
     # ---- expressions
+    # ---- vectors held entry by entry (opts.vectors)
+    def _vec_poison(self, name, why):
+        """the vector `name` (and every name that holds the same entries) is written in a way that is not followed: its entries are not known"""
+        cur = self.env.get(name)
+        for k in list(self.env):
+            if k == name or (isinstance(cur, tuple) and self.env[k] is cur):
+                self.env[k] = self.vecdead[k] = Unknown(f"the vector `{k}` is {why}")
+                self.vecnames.discard(k)
+        self.vecnames.discard(name)
+        self._vec_up(cur, why)
+
+    def _vec_up(self, cur, why):
+        """a vector object that is written here is the one a caller holds under its own names (it was handed down as an argument)"""
+        p = getattr(self, "_vec_parent", None)
+        while p is not None and isinstance(cur, tuple):
+            for k in list(p.env):
+                if p.env[k] is cur:
+                    p.env[k] = p.vecdead[k] = Unknown(f"the vector `{k}` is {why} (in a function it was handed to)")
+                    p.vecnames.discard(k)
+            p = getattr(p, "_vec_parent", None)
+
+    def _vec_positions(self, sl, n):
+        """positions of a vector of length n a subscript selects (in order), or None: integer constants, slices with constant bounds, lists
+        of integer constants; leading `:` / `...` (the row axis of a rows x entries array held row-alike) select nothing"""
+        if isinstance(sl, ast.Tuple):
+            elts = list(sl.elts)
+            while len(elts) > 1 and ((isinstance(elts[0], ast.Constant) and elts[0].value is Ellipsis)
+                                      or (isinstance(elts[0], ast.Slice) and elts[0].lower is None and elts[0].upper is None and elts[0].step is None)):
+                elts = elts[1:]
+            if len(elts) != 1:
+                return None
+            sl = elts[0]
+
+        def cint(x):
+            if x is None:
+                return None
+            v = self.ev(x)
+            if v is None or is_unknown(v) or isinstance(v, (tuple, DictValue)) or not v.is_const() or v.const_value().denominator != 1:
+                raise Unsupported("not an integer constant")
+            return int(v.const_value())
+        try:
+            if isinstance(sl, ast.Slice):
+                return list(range(n))[slice(cint(sl.lower), cint(sl.upper), cint(sl.step))]
+            if isinstance(sl, (ast.List, ast.Tuple)):
+                return [list(range(n))[cint(e)] for e in sl.elts]
+            if isinstance(sl, ast.Constant) and sl.value is Ellipsis:
+                return list(range(n))
+            return [list(range(n))[cint(sl)]]
+        except (Unsupported, IndexError, ValueError, TypeError):
+            return None
+
+    def _vec_store(self, name, sl, v, st):
+        cur = self.env.get(name)
+        pos = self._vec_positions(sl, len(cur)) if isinstance(cur, tuple) else None
+        if pos is None or len(set(pos)) != len(pos):
+            return self._vec_poison(name, f"stored into under the subscript `{ast.unparse(sl)}`, which is not a selection by constants")
+        if isinstance(v, tuple):
+            if len(v) != len(pos) or any(x is None or is_unknown(x) or isinstance(x, (tuple, DictValue)) for x in v):
+                return self._vec_poison(name, "stored into with values that are not known entry by entry")
+            vals = list(v)
+        elif v is None or is_unknown(v) or isinstance(v, DictValue) or (_symbols_of(v) & self.trace.idents):
+            return self._vec_poison(name, "stored into with a value that is not a known scalar")
+        else:
+            vals = [v] * len(pos)
+        new = list(cur)
+        for k, q in zip(pos, vals):
+            new[k] = q
+        for k in list(self.env):                      # (another name bound to the same array sees the store)
+            if k != name and self.env[k] is cur:
+                self.env[k] = self.vecdead[k] = Unknown(f"`{k}` is bound to the vector `{name}`, which is stored into afterwards")
+                self.vecnames.discard(k)
+        self._vec_up(cur, f"stored into through `{name}`")
+        self.env[name] = tuple(new)
+
+    def _vec_effects(self, st):
+        """(opts.vectors) what a statement may do to a vector behind the evaluator's back: a call that is handed the vector (or a possible view
+        of it) and is neither a pure library function nor a function the evaluator follows, an `out=` argument, a method of the vector that is
+        not a pure one, an in-place update of a name that may be a view of it"""
+        if not self.vecnames:
+            return
+
+        def root(x):
+            """the vector a `name`, `name[...]`, `name.attr` expression may give access to"""
+            while isinstance(x, (ast.Subscript, ast.Attribute, ast.Starred)):
+                x = x.value
+            if isinstance(x, ast.Name):
+                r = self.vecviews.get(x.id, x.id)
+                return r if r in self.vecnames else None
+            return None
+        for x in ast.walk(st):
+            if not isinstance(x, ast.Call):
+                continue
+            d = dotted(x.func) or ""
+            for k in x.keywords:
+                if k.arg == "out" or k.arg is None:
+                    for n in ast.walk(k.value):
+                        if isinstance(n, ast.Name) and self.vecviews.get(n.id, n.id) in self.vecnames:
+                            self._vec_poison(self.vecviews.get(n.id, n.id), f"handed to `{ast.unparse(x.func)}` as `{k.arg or '**'}=`")
+            direct = [r for r in (root(a) for a in list(x.args) + [k.value for k in x.keywords]) if r is not None]
+            if isinstance(x.func, ast.Attribute):
+                r = root(x.func.value)
+                if r is not None and x.func.attr not in _PURE_METHODS:
+                    self._vec_poison(r, f"the receiver of `.{x.func.attr}(...)`, which may write it")
+            if not direct:
+                continue
+            pure = (d.startswith(_PURE_PREFIX) and d not in _INPLACE and not d.endswith(".at")) or d in _PURE_BUILTINS \
+                or (isinstance(x.func, ast.Attribute) and x.func.attr in _PURE_METHODS and not d.startswith(_PURE_PREFIX))
+            if d in self.env or d.split(".")[0] in self.env and not d.startswith("self."):
+                pure = False          # a local name shadows it
+            if pure or (d and self._resolve(d) is not None) or d in self.trace.closures or d.split(".")[-1] in self.opts.vector_readers:
+                continue              # (a function that is followed: a store through its parameter is seen where it happens)
+            for r in direct:
+                if r in self.vecnames:
+                    self._vec_poison(r, f"handed to `{ast.unparse(x.func)}`, which is not followed")
+        if isinstance(st, ast.AugAssign):
+            t = st.target
+            base = t.value if isinstance(t, ast.Subscript) else t
+            if isinstance(base, ast.Name) and base.id in self.vecviews and base.id not in self.vecnames:
+                r = self.vecviews[base.id]
+                if r in self.vecnames:
+                    self._vec_poison(r, f"updated in place through `{base.id}`, which may be a view of it")
+        if isinstance(st, (ast.Assign, ast.AnnAssign)):
+            for t in (st.targets if isinstance(st, ast.Assign) else [st.target]):
+                if isinstance(t, ast.Subscript) and isinstance(t.value, ast.Name) and t.value.id in self.vecviews and t.value.id not in self.vecnames:
+                    r = self.vecviews[t.value.id]
+                    if r in self.vecnames:
+                        self._vec_poison(r, f"stored into through `{t.value.id}`, which may be a view of it")
+
     def _ev(self, node):
+        if isinstance(node, ast.Name) and node.id in self.vecnames:
+            return self.env.get(node.id, Unknown(f"vector {node.id}"))
+        if isinstance(node, ast.Name) and node.id in self.vecdead:
+            return self.vecdead[node.id]
+        if self.opts.vectors and isinstance(node, ast.Subscript) and dotted(node.value) in ("np.r_", "numpy.r_") and "np" not in self.env:
+            out = []
+            for e in (node.slice.elts if isinstance(node.slice, ast.Tuple) else [node.slice]):
+                if isinstance(e, (ast.Slice, ast.Constant)) and not (isinstance(e, ast.Constant) and isinstance(e.value, (int, float)) and not isinstance(e.value, bool)):
+                    return Unknown("np.r_ with a range or a directive")
+                v = self.ev(e)
+                if isinstance(v, tuple):
+                    out.extend(v)
+                else:
+                    out.append(v)
+            if any(x is None or is_unknown(x) or isinstance(x, (tuple, DictValue)) for x in out):
+                return Unknown("np.r_ of values that are not known entry by entry")
+            return tuple(out)
+        if self.opts.vectors and isinstance(node, ast.Attribute) and node.attr in ("size", "shape") and dotted(node) not in self.env:
+            bv = self.ev(node.value)
+            if isinstance(bv, tuple) and not isinstance(bv, Record) and not any(isinstance(x, (tuple, DictValue)) for x in bv):
+                return F.const(len(bv)) if node.attr == "size" else Unknown("shape of a rows x entries array held by its generic row")
+        if self.opts.vectors and isinstance(node, ast.Subscript) and isinstance(node.slice, ast.List):
+            bv = self.ev(node.value)
+            if isinstance(bv, tuple) and not isinstance(bv, Record):
+                pos = self._vec_positions(node.slice, len(bv))
+                if pos is not None:
+                    return tuple(bv[k] for k in pos)
         if isinstance(node, ast.Name) and node.id in self.views:
             return self.views[node.id]
         if isinstance(node, ast.Name) and node.id in self.buffers:
@@ -1822,6 +2001,7 @@ class PathEval(AutoEvaluator):
         # (*args / **kwargs of the callee: a sequence / a table held item by item)
         rest = tuple(pos[len(params):])
         sub = PathEval(fn2, self.ctx, self.config, self.opts, trace=self.trace, depth=self.depth + 1, stack=self.stack)
+        sub._vec_parent = self
         if closure is not None:
             # a function defined inside another one reads the enclosing scope as it is when it is called; what it binds stays its own
             sub.rel, sub.module_consts = closure.rel, closure.module_consts
@@ -1862,6 +2042,9 @@ class PathEval(AutoEvaluator):
             env[a.kwarg.arg] = DictValue(extra)
         for p_, v in env.items():
             if p_ in sub.buffers:
+                if self.opts.vectors and isinstance(v, tuple):
+                    for k in [k for k in self.vecnames if self.env.get(k) is v]:
+                        self._vec_poison(k, f"handed to `{name}`, which stores through its parameter `{p_}`")
                 s = sym_name(v)
                 if s is not None and s in self.trace.idents:
                     sub.alias[p_] = s
@@ -1901,6 +2084,8 @@ class PathEval(AutoEvaluator):
     def stmt(self, st):
         if self.done or self._cont or self.trace.raised:
             return
+        if self.opts.vectors:
+            self._vec_effects(st)
         if isinstance(st, ast.Raise):
             # the path ends here: nothing after it is executed, nothing is returned
             self.trace.raised = (st, getattr(self.fn, "name", "<lambda>"))
@@ -2129,6 +2314,46 @@ class PathEval(AutoEvaluator):
         self.env[ctr] = F.sym(nm)
 
     def _assign(self, target, v, st, aug=False):
+        if self.opts.vectors:
+            if isinstance(target, ast.Subscript) and isinstance(target.value, ast.Name) and target.value.id in self.vecnames:
+                return self._vec_store(target.value.id, target.slice, v, st)
+            if isinstance(target, ast.Name):
+                src = getattr(st, "value", None)
+                self.vecviews.pop(target.id, None)
+                if not aug:
+                    self.vecdead.pop(target.id, None)
+                if aug and target.id in self.vecnames:
+                    # `w /= 2`: the array is updated in place; another name bound to it sees the update
+                    cur = self.env.get(target.id)
+                    for k in list(self.env):
+                        if k != target.id and isinstance(cur, tuple) and self.env[k] is cur:
+                            self.env[k] = self.vecdead[k] = Unknown(f"`{k}` is bound to the vector `{target.id}`, which is updated in place afterwards")
+                            self.vecnames.discard(k)
+                    self._vec_up(cur, f"updated in place through `{target.id}`")
+                    if isinstance(v, tuple) and not any(x is None or is_unknown(x) or isinstance(x, (tuple, DictValue)) for x in v):
+                        self.env[target.id] = v
+                    else:
+                        self._vec_poison(target.id, "updated in place with a value that is not known entry by entry")
+                    return
+                self.vecnames.discard(target.id)
+                if not aug and isinstance(src, (ast.Name, ast.Subscript, ast.Attribute)):
+                    # bound to (a slice / the transpose of) a vector: possibly a view of it
+                    root = src
+                    while isinstance(root, (ast.Subscript, ast.Attribute)):
+                        root = root.value
+                    if isinstance(root, ast.Name):
+                        r0 = self.vecviews.get(root.id, root.id)
+                        if r0 in self.vecnames and r0 != target.id:
+                            self.vecviews[target.id] = r0
+                if target.id not in self.pinned and isinstance(v, tuple) and not isinstance(v, Record) and v \
+                        and not any(x is None or is_unknown(x) or isinstance(x, (tuple, DictValue)) or (_symbols_of(x) & self.trace.idents) for x in v) \
+                        and target.id not in self.vecviews and not (src is not None and _creates_array(src)):
+                    if target.id in self.buffers:
+                        self.views.pop(target.id, None)
+                        self.alias.pop(target.id, None)
+                    self.env[target.id] = v
+                    self.vecnames.add(target.id)
+                    return
         if isinstance(target, ast.Subscript):
             base = target.value
             ident = None
